@@ -4,6 +4,7 @@ CONSTANTS
   Mults = {1, 2, 3}
   MaxSize = 4096
   MaxCount = 1025
+  LineLens = {4096, 65536}
   SzThresholds = {32768, 65536}
   SzMults = {1, 2, 3, 4}
   CoreW = 1100
